@@ -274,8 +274,12 @@ def check_backends(res, Q, wp_rev, label, rc, rng, adversarial=False):
             res.evals += 1
             res.count(f"backend:{name}")
             d = float(np.abs(P - ref).max())
-            # G: Taylor stops when numpy.allclose (rtol 1e-5, atol 1e-8) sees no change: its own accuracy contract
-            if d > (1e-5 if name == "Taylor" else 1e-8):
+            # G: Taylor stops when numpy.allclose (rtol 1e-5, atol 1e-8) sees no change: its own accuracy contract.
+            # G: any exponential of a matrix with ||Qt|| ~ 1e7 (parameters parked at the 1e6 bound) carries absolute
+            # rounding error of order eps*||Qt||, scipy's included (Pade and eigen then differ from scipy, and from each
+            # other, by ~1e-8): the tolerance grows with the norm
+            tol = max(1e-8, 2e-14 * float(np.abs(Q * t).sum(axis=1).max()))
+            if d > (1e-5 if name == "Taylor" else tol):
                 if name in ("Fast", "SemiSymmetric") and not checked_ok:
                     res.refused += 1  # G: unchecked eigen back-end on a matrix the checked one rejects
                     continue
@@ -303,7 +307,7 @@ def check_backends(res, Q, wp_rev, label, rc, rng, adversarial=False):
             res.evals += 1
             res.count(f"setting:{setting}")
             d = float(np.abs(P - ref).max())
-            if d > 1e-8:
+            if d > max(1e-8, 2e-14 * float(np.abs(Q * t).sum(axis=1).max())):
                 if setting == "eigen" and not checked_ok:
                     res.refused += 1
                     continue
